@@ -287,6 +287,7 @@ def run(ctx):
     fields_rule(ctx, repo, templates)
     from sa.rules import C16links
     C16links.run(ctx, repo)
+    C16links.run_ignored(ctx, repo)
     C16links.run_operands(ctx, repo)
     C16links.run_link(ctx, repo)
     from sa.rules import stalecopy
